@@ -44,11 +44,12 @@ CLAIMED = {
         "loopback_http_issuer_accepted (negation, known finding); every_registry_key_has_a_validator. Registration (Props/C18Reg.lean over Model/Registration.lean): "
         "validated_metadata_is_good (a successful ClientMetadataClaims.validate stores only absolute fragment-free URIs and supported scope / grant types / response types / "
         "auth method), store_good_over_every_history (INVARIANT over all sequences of register / update requests, merge included), register_without_token_refused, "
-        "update_other_client_refused, update_wrong_secret_refused, update_server_member_refused (list regenerated from the endpoint source), all with the store unchanged. "
+        "update_other_client_refused, update_wrong_secret_refused, update_server_member_refused (list regenerated from the endpoint source), all with the store unchanged; "
+        "OpenID registration claims class: oidc_validated_is_good (application_type web / native, signing algorithms never none, subject type supported, URI entries absolute). "
         "Correspondence: ~4 000 (quick) metadata documents (every member × retype pool, pairs) on both classes with outcome class AND message compared; registration / update "
         "requests and short histories on the real endpoints with outcome and stored metadata compared; independent statement oracle.",
    note="PARTIAL as labelled (guards above). Readings: scalar / URL members are present when truthy, array members when non-null. Trusted: Lean kernel; urlsplit subset (printable ASCII, no "
-        "brackets); jwks verdict abstract; in-memory registration endpoints (regworld.py); OIDC registration claims class (oidc/registration/claims.py) not modelled. Observation: an object "
+        "brackets); jwks verdict abstract; in-memory registration endpoints (regworld.py); the OIDC registration claims class is modelled and compared on its own (not through the endpoints). Observation: an object "
         "given as grant_types / response_types is accepted by its keys; 0/1 accepted for boolean members.",
    technique="Lean 4 proof (per-member iff lifted over regenerated key lists; validated-metadata invariant over all histories) + differential correspondence + statement oracle",
    design="§5 C18"),
